@@ -6,7 +6,7 @@ From Coq Require Import Ascii String List NArith Arith Bool.
 Import ListNotations.
 Require Import Laze.model.Base Laze.model.Env Laze.model.Ninja Laze.model.Ctx Laze.model.Generate
         Laze.model.Load Laze.model.Cache.
-Require Import Laze.proofs.CacheFacts Laze.proofs.CacheNarrow Laze.proofs.CacheInstance Laze.proofs.LoadFrame.
+Require Import Laze.proofs.CacheFacts Laze.proofs.CacheNarrow Laze.proofs.CacheInstance Laze.proofs.LoadFrame Laze.proofs.LoadNames.
 Open Scope list_scope.
 
 Section C08.
@@ -28,7 +28,7 @@ Section C08.
   (* A run that is served from the cache in a coherent build directory writes nothing; the ninja
      file on disk is the complete file r of a generation of the CURRENT tree for the cached
      arguments; and — same build-dir/root/binary spelling, same -D list, no --partition, --apps
-     narrowed in global mode only, distinct context names — a run with the same arguments in an
+     narrowed in global mode only — a run with the same arguments in an
      empty build directory succeeds, configures exactly the builds the hit hands to main that the
      arguments select, and writes only statements that are in the file on disk. *)
   Theorem C08_hit_is_fresh : forall a k (w w' : world) r',
@@ -40,13 +40,12 @@ Section C08.
       r' = cview a r /\ caccepts (c_args _ _ _ c) r a = true /\ cts_valid (c_ts _ _ _ c) (w_tree _ _ _ _ w) = true /\
       (ca_le (c_args _ _ _ c) = ca_le a -> ca_define (c_args _ _ _ c) = ca_define a -> ca_partition a = None ->
        (ca_local a = None \/ ca_apps a = ca_apps (c_args _ _ _ c)) -> ca_local (c_args _ _ _ c) = ca_local a ->
-       (forall b, load (ytree_of store (w_tree _ _ _ _ w)) project_file bd = Ok b -> ctx_names_ok b) ->
        exists g',
          snd (crun H EV bd store a 0 (fresh _ _ _ _ (w_tree _ _ _ _ w))) = ORegen g' /\
          (forall x, In x (gr_builds g') <->
                     In x (gr_builds r') /\ selects (ca_builders a) (bi_builder x) = true /\ selects (ca_apps a) (bi_binary x) = true) /\
          (forall t, In t (map show_stmt (gr_stmts g')) -> In t (map show_stmt (gr_stmts r)))).
-  Proof. intros a k w w' r'. exact (hit_is_fresh H EV bd store a k w w' r' (load_frame_holds bd store)). Qed.
+  Proof. exact (hit_is_fresh_final H EV bd store). Qed.
 
   (* With --partition the cache is only accepted for the same selection (same builders in the same
      order, same set of apps): a run with the same arguments in an empty build directory then
